@@ -82,7 +82,10 @@ def gen_leaf(rng, cls=None, n=None, **opt):
   elif cls == 'SDevice':
     L['bounds'] = gen_bounds(rng, n, opt.get('sign', pick(rng, ['two', 'two', 'pos', 'neg'])), opt.get('zero_width', None if rng.random() < .8 else 'some'))
   elif cls == 'TDevice':
-    L['bounds'] = gen_bounds(rng, n, opt.get('sign', pick(rng, ['pos', 'pos', 'pos', 'two'])), opt.get('zero_width'))
+    sg = opt.get('sign', pick(rng, ['pos', 'pos', 'pos', 'two']))
+    if opt.get('variant') is not None and 'sign' not in opt:
+      sg = 'two' if (opt['variant'] // 5) % 2 == 0 else 'pos'
+    L['bounds'] = gen_bounds(rng, n, sg, opt.get('zero_width'))
   cbk = opt.get('cbounds')
   if cls == 'CDevice2':
     cb, kind = gen_cbounds(rng, n, L['bounds'], cbk or pick(rng, ['pair', 'single', 'multi', 'multi']), contiguous=True)
@@ -131,6 +134,20 @@ def gen_leaf(rng, cls=None, n=None, **opt):
   elif cls == 'ADevice':
     L['f'] = gen_fn(rng, n, L['bounds'], L['cbounds'], opt.get('fn_depth', 2))
     L['ucons'] = [gen_ucon(rng, n) for _ in range(rng.randint(0, 2))]
+  v = opt.get('variant')
+  if v is not None:
+    # stratification: the features whose combinations matter are cycled deterministically instead of drawn
+    if cls == 'TDevice':
+      L['efficiency'] = [F(2), F(1, 2), F(-2), F(1), F(-1, 2)][v % 5]
+      if L['t_range'] == 0 and v % 3:
+        L['t_range'] = F(2)
+    elif cls == 'SDevice':
+      L['efficiency'] = [F(1, 2), F(1), F(3, 4)][v % 3]
+      L['sustainment'] = [F(1), F(1, 2), F(3, 4)][(v // 3) % 3]
+      if (v // 2) % 2 == 0 and L['c3'] == 0:
+        L['c3'] = F(1, 2)
+      if (v // 4) % 2 == 0 and L['c2'] == 0:
+        L['c2'] = L['c1'] / 2
   return L
 
 
